@@ -182,11 +182,12 @@ theorem validate_err {md0 : Items} {e : ErrKind} (hnm : filesNotMapping md0 = tr
   · exact pathsJoinable_spec hpj info fl files hi hf (filesNotMapping_spec hnm info fl hi hf) hfiles
 
 /-- what a successful `validate()` establishes (the metainfo already has its `info` entry) -/
-theorem validate_ok {md0 : Items} (h : validate urlOk fs md0 = .ok ()) : ValidFacts urlOk md0 := by
+theorem validate_ok {md0 : Items} (h : validate urlOk fs md0 = .ok ()) :
+    ValidFacts urlOk md0 ∧ ensureInfo md0 = md0 := by
   obtain ⟨iv, hiv⟩ := ensureInfo_lookup md0
   have vf := (validateItems_cases urlOk fs hiv _ h).1 rfl
   rcases ensureInfo_cases md0 with he | he
-  · rwa [he] at vf
+  · exact ⟨by rwa [he] at vf, he⟩
   · obtain ⟨info, b, cf, _⟩ := vf.ex
     have := cf.hinfo
     rw [he] at this
@@ -194,5 +195,11 @@ theorem validate_ok {md0 : Items} (h : validate urlOk fs md0 = .ok ()) : ValidFa
     subst this
     obtain ⟨v, hv, _⟩ := cf.name
     simp [PyVal.lookupStr] at hv
+
+theorem outside_spec {md0 : Items} (h : outsideD07fD07j fs md0 = true) :
+    filesNotMapping md0 = true ∧ (fs.hasPath = false ∨ pathsJoinable md0 = true) ∧
+      numbersSmall md0 = true := by
+  simp only [outsideD07fD07j, Bool.and_eq_true, Bool.or_eq_true, Bool.not_eq_true'] at h
+  exact ⟨h.1.1, h.1.2, h.2⟩
 
 end Torf.Validate
